@@ -48,3 +48,26 @@ reg("C14", "model_checking", "E3",
     "above. Each execution is the real Submitter/Job code on a fresh cache; executed bodies, cached successes and the "
     "final error are checked against the job-level dependency relation.",
     "Pool process = atomic in-process Job.run on the unpickled job; submitter sees jobs only via lock file, result file, future.")
+
+_E3NOTE = "Pool process = atomic in-process Job.run on the unpickled job; submitter sees jobs only via lock file, result file, future; pruning by a fine state hash."
+reg("C15", "model_checking", "E3",
+    "exhaustive schedule exploration of the async Submitter (virtual loop) + sequential loop, dispatch monitors",
+    "Per program (chains, fan-in/out, diamond, splits, combiner; thorough adds nested workflow etc.), from an empty and from a "
+    "pre-populated cache root, every explored worker schedule (complete for <=3-4 jobs, deviation-bounded above): at each "
+    "dispatch all consumed upstream jobs have finished successfully, no identity is dispatched twice, each body runs exactly "
+    "once (zero if cached), every job ends with a result. The sequential loop is checked on its execution order.", _E3NOTE)
+reg("C16", "model_checking", "E3",
+    "exhaustive schedule exploration of the async Submitter (virtual loop), in-flight invariant at every dispatch",
+    "Independent, split and chained workflows with m=2..5 (thorough ..10) jobs x every limit k=1..m; all schedules for m<=3(4), "
+    "deviation-bounded above; invariant: jobs dispatched and unfinished <= k at every dispatch.", _E3NOTE)
+reg("C17", "model_checking", "E3+E6",
+    "exhaustive schedule exploration (virtual loop) compared with the debug worker; real process-pool runs as validation",
+    "For each program and max_concurrent in {1,2,inf} every explored completion schedule must return exactly the debug-worker "
+    "outputs (values and order); the real cf worker with 1,2,4(,8) processes is run on the same programs as validation of the seam.",
+    _E3NOTE + " OS scheduling of the real pool is sampled, not enumerated.")
+reg("C18", "model_checking", "E1xE3",
+    "exhaustive enumeration of workflow wirings (incl. back edges) x bounded schedule/fault exploration with a termination horizon",
+    "Every wiring of <=3 (thorough 4) nodes where each input comes from a constant or ANY node (later nodes/itself through "
+    "post-assignment), typed and untyped: run with the debug worker and under all virtual-worker schedules with <=1 (2) "
+    "deviations including die(j) faults; oracle: returns outputs or an error within 30 s real time / 60 virtual seconds.",
+    _E3NOTE + " Termination is judged against a finite horizon.")
